@@ -34,6 +34,8 @@ func c06(c *Ctx) {
 	r.Rule("R06.W", "no variable-length big.Int.Bytes() reaches a fixed-width position (copy left-aligned, constant slice/index, bytes.Equal against a digest, stored as key); fixed-width conversions use the protocol width of their operand", 8)
 	r.Rule("R06.A", "the client's DH message is readable by a conformant server for every g_b: SHA1(data)+data is padded with 0..15 bytes to a whole block (tabulated over the data length), so the server's search over paddings 0..15 finds the hash whatever the byte length of g_b", 1)
 	c.checkTempKeyPad("R06.A")
+	r.Rule("R06.T", "the byte strings of the exchange (pq, p, q, g_b, encrypted data) are written in the schema's string form for every length: 1-byte header below 254 bytes, 4-byte header from 254 on (= C02 R02.S; g_b is 254 bytes once in 65536 exchanges)", 3)
+	c02Strings(c, an.NewTracer(), "R06.T", "R06.T", "")
 	r.Rule("R06.S", "success effects dominate the success exit; fingerprint sent = fingerprint matched = SHA1(PutMessage(n)PutMessage(e))[12:]", 5)
 
 	sites := c.widthSites(func(f *ssa.Function) bool {
@@ -116,7 +118,7 @@ func c06(c *Ctx) {
 	nExit := 0
 	for _, b := range mk.Blocks {
 		for _, in := range b.Instrs {
-			ret, ok := in.(*ssa.Return)
+			ret, ok := an.AsReturn(in)
 			if !ok || len(ret.Results) != 1 || b == mk.Recover {
 				continue // (the recover block of a function with defers returns the result slot after a panic)
 			}
@@ -161,7 +163,7 @@ func c06(c *Ctx) {
 		okRet := false
 		for _, b := range fp.Blocks {
 			for _, in := range b.Instrs {
-				if ret, ok := in.(*ssa.Return); ok && len(ret.Results) == 1 {
+				if ret, ok := an.AsReturn(in); ok && len(ret.Results) == 1 {
 					o := tr.OriginString(an.RetVal(ret, 0))
 					okRet = (strings.Contains(o, "Sha1") || strings.Contains(o, "sha1.Sum")) && strings.Contains(o, "[12:")
 					r.Check(okRet, "R06.S", "fingerprint-layout:sha1[12:]", c.pos(ret.Pos()), o)
